@@ -36,6 +36,9 @@ Proof.
   assert (PlA : Forall plain A).
   { apply Forall_forall. intros r Hr. apply PA in Hr.
     pose proof (zminus_plain (v_rest b) (v_rest a) Hb) as Hp. rewrite Forall_forall in Hp. apply Hp, Hr. }
+  assert (Hq : quiet tz) by (apply (agree_quiet (v_rest a)); assumption).
+  assert (Hq1 : quiet z1') by (apply (quiet_dels _ _ _ Hd' Hq)).
+  assert (Hq2 : quiet (zput soakey (v_ttl b, [v_soa b]) z1')) by (apply quiet_zput; [exact Hq1|discriminate]).
   exists (adds (zput soakey (v_ttl b, [v_soa b]) z1') A). split.
   - cbn [map loopn]. rewrite step_del_start by assumption.
     rewrite map_app, loopn_app.
@@ -101,9 +104,9 @@ Proof.
   { eapply zsorted_zeq; [exact Hz|apply zsorted_zone_of, Hv0]. }
   { apply chain_ok_soa, Hok. }
   { intros k Hk. rewrite Hz, look_zone_of. apply key_eqb_neq in Hk. rewrite Hk. reflexivity. }
-  pose proof (version_wf_last chain v0 Hv0 Hch) as [Httl _].
+  pose proof (version_wf_last chain v0 Hv0 Hch) as Hvn. pose proof Hvn as [Httl _].
   eexists. eexists. split; [exact Hr|]. split; [reflexivity|].
-  split; [apply step_final; exact Httl|]. split; [reflexivity|].
+  split; [apply step_final; [exact Httl|exact (zeq_zone_of_quiet _ _ Hvn Hz')]|]. split; [reflexivity|].
   cbn [pub]. intros k. rewrite look_zput, look_zone_of.
   destruct (key_eqb k soakey) eqn:E; [reflexivity|]. rewrite Hz', look_zone_of, E. reflexivity.
 Qed.
@@ -145,7 +148,7 @@ Proof.
   { apply Forall_forall. intros r0 Hr0. apply PB in Hr0.
     pose proof (body_plain _ Hwf) as Hp. rewrite Forall_forall in Hp. apply Hp, Hr0. }
   destruct (cont_full ws' false (map single) a tAXFR z0 [] (match ser with Some sv => sv | None => 0 end) v
-              B parse_single_ok parse_group_ok Httl Hws PlB zsorted_nil Hcat)
+              B parse_single_ok parse_group_ok Httl Hws PlB zsorted_nil quiet_nil Hcat)
     as [z' [n [Hn Hz']]].
   exists z', n. split; [exact Hn|]. apply full_target; [exact Hv|].
   eapply zeq_trans; [exact Hz'|]. apply zput_zeq, adds_same_set; [exact PB|apply zsorted_nil].
